@@ -87,6 +87,9 @@ def check(ctx):
     check_rejections(ctx, inner)
     check_layer(ctx, inner)
     check_uns(ctx, inner)
+    from .C05 import check_tiles
+    check_tiles(ctx, ('validation.utils', 'validation.validate_h5ad'),
+                floor=8)
 
 
 def check_input_effects(ctx, pa, outer, inner):
